@@ -1,4 +1,525 @@
+//! C17 – the network graph holds only authentic, current gossip, whatever the order.
+//!
+//! Bounded exhaustive enumeration of gossip delivery orders (with duplication, permanent-failure
+//! reports, pruning and rapid-gossip-sync snapshots interleaved at every position) against the real
+//! `NetworkGraph` / `P2PGossipSync` / `RapidGossipSync`, with an independent reference model.
+
+mod enumr;
+mod model;
+mod real;
+mod run;
+mod uni;
+
+use enumr::{dup_variants, extensions, plan, rgs_snapshots, with_ops, Pool};
+use mc_common::cli::{self, die};
+use mc_common::evidence::{Evidence, Level};
+use mc_common::findings::{self, Violation};
+use mc_common::{json, par, Value};
+use model::{declarative, has_timestamp_ties, RgsSnapshot};
+use run::{execute, steps_string, Stats, Step};
+use std::collections::{BTreeMap, BTreeSet};
+use std::sync::atomic::{AtomicBool, Ordering};
+use std::time::{Duration, Instant};
+use uni::{Era, Universe, STALE, WALL_HI, WALL_LO};
+
+const PROPERTY: &str = "C17";
+
+#[derive(Clone)]
+struct RawViol {
+	oracle: String,
+	era: Era,
+	steps: Vec<Step>,
+	compare_with: Option<Vec<Step>>,
+	detail: String,
+}
+
+struct World {
+	us: [Universe; 2],
+	rgs: [Vec<RgsSnapshot>; 2],
+}
+
+impl World {
+	fn u(&self, e: Era) -> &Universe {
+		&self.us[if e == Era::Past { 0 } else { 1 }]
+	}
+	fn r(&self, e: Era) -> &[RgsSnapshot] {
+		&self.rgs[if e == Era::Past { 0 } else { 1 }]
+	}
+}
+
+/// Runs one execution with all per-step oracles; a panic in LDK becomes a `no-panic` failure.
+fn checked(w: &World, era: Era, steps: &[Step], st: &mut Stats, keep: bool) -> (Option<run::Outcome>, Vec<(String, String)>) {
+	let u = w.u(era);
+	match par::guarded(|| execute(u, w.r(era), steps, st, keep)) {
+		Ok(o) => {
+			let f = o.fails.iter().map(|f| (f.oracle.clone(), format!("step {} of [{}]: {}", f.step, steps_string(u, steps), f.detail))).collect();
+			(Some(o), f)
+		},
+		Err(p) => (None, vec![("no-panic".to_string(), format!("panic while executing [{}]: {}", steps_string(u, steps), p))]),
+	}
+}
+
+struct PoolRef {
+	exts: Vec<Vec<usize>>,
+	/// for pools where order must not matter: canonical bytes of the final graph of the first
+	/// order, and that graph re-read from the canonical bytes
+	inv: Option<(Vec<u8>, real::Graph, Vec<Step>)>,
+}
+
+struct JobResult {
+	family: &'static str,
+	stats: Stats,
+	viols: Vec<RawViol>,
+	finals: BTreeSet<u128>,
+	invariance_checked: u64,
+	declarative_checked: u64,
+	skipped_orders: u64,
+	sample: Option<Value>,
+}
+
+fn run_job(w: &World, pool: &Pool, pr: &PoolRef, range: (usize, usize), deadline: Instant, capped: &AtomicBool) -> JobResult {
+	let u = w.u(pool.era);
+	let mut jr = JobResult {
+		family: pool.family,
+		stats: Stats::default(),
+		viols: Vec::new(),
+		finals: BTreeSet::new(),
+		invariance_checked: 0,
+		declarative_checked: 0,
+		skipped_orders: 0,
+		sample: None,
+	};
+	let mut per_oracle: BTreeMap<String, usize> = BTreeMap::new();
+	let mut nexec = 0u64;
+	for ei in range.0..range.1 {
+		if Instant::now() >= deadline {
+			capped.store(true, Ordering::Relaxed);
+			jr.skipped_orders += (range.1 - ei) as u64;
+			break;
+		}
+		for seq in dup_variants(&pr.exts[ei], pool.dup) {
+			let mut f = |steps: &[Step]| {
+				let (out, fails) = checked(w, pool.era, steps, &mut jr.stats, false);
+				let mut push = |oracle: String, detail: String, cmp: Option<Vec<Step>>| {
+					let c = per_oracle.entry(oracle.clone()).or_insert(0);
+					if *c < 3 {
+						*c += 1;
+						jr.viols.push(RawViol { oracle, era: pool.era, steps: steps.to_vec(), compare_with: cmp, detail });
+					}
+				};
+				for (o, d) in fails {
+					push(o, d, None);
+				}
+				if let Some(out) = out {
+					jr.finals.insert(mc_common::digest128(&out.final_n1));
+					let plain = steps.iter().all(|s| !s.is_op());
+					if plain && pool.constrained {
+						jr.declarative_checked += 1;
+						let d = declarative(u, &seq);
+						if d != out.final_snap {
+							push(
+								"final-graph-is-not-latest-valid-per-key".into(),
+								format!("[{}]: real {} | expected {}", steps_string(u, steps), out.final_snap.describe(u), d.describe(u)),
+								None,
+							);
+						}
+						if let Some((ref_n1, ref_graph, ref_steps)) = &pr.inv {
+							jr.invariance_checked += 1;
+							if out.final_n1 != *ref_n1 {
+								push(
+									"order-dependent-final-graph".into(),
+									format!("[{}] and [{}] deliver the same valid messages but end in different graphs: {}", steps_string(u, steps), steps_string(u, ref_steps), out.final_snap.describe(u)),
+									Some(ref_steps.clone()),
+								);
+							}
+							match real::read_graph(&out.final_n1) {
+								Ok(g) => {
+									if g != *ref_graph {
+										push("order-dependent-final-graph-eq".into(), format!("[{}] vs [{}]: NetworkGraph == says the final graphs differ", steps_string(u, steps), steps_string(u, ref_steps)), Some(ref_steps.clone()));
+									}
+								},
+								Err(e) => push("canonical-encoding-unreadable".into(), format!("[{}]: {}", steps_string(u, steps), e), None),
+							}
+						}
+					}
+				}
+				nexec += 1;
+				if range.0 == 0 && (nexec == 1 || nexec == 38) {
+					jr.sample = Some(json!({"pool": pool.name(u), "steps": steps.iter().map(|s| s.to_json(u)).collect::<Vec<_>>()}));
+				}
+			};
+			with_ops(&seq, &pool.ops, pool.max_ops, true, &mut f);
+		}
+	}
+	jr
+}
+
+fn replay_json(u: &Universe, v: &RawViol) -> Value {
+	json!({
+		"era": v.era.name(),
+		"steps": v.steps.iter().map(|s| s.to_json(u)).collect::<Vec<_>>(),
+		"compare_with": v.compare_with.as_ref().map(|c| c.iter().map(|s| s.to_json(u)).collect::<Vec<_>>()),
+	})
+}
+
+/// Re-evaluates one recorded input; returns the oracles that fire.
+fn evaluate(w: &World, era: Era, steps: &[Step], cmp: Option<&[Step]>) -> Vec<(String, String)> {
+	let u = w.u(era);
+	let mut st = Stats::default();
+	let (out, mut fails) = checked(w, era, steps, &mut st, false);
+	if let Some(out) = out {
+		let plain: Vec<usize> = steps.iter().filter_map(|s| if let Step::Msg(i) = s { Some(*i) } else { None }).collect();
+		if plain.len() == steps.len() {
+			// announcement-before-update respected?
+			let mut seen = Stats::default();
+			let _ = &mut seen;
+			let respects = {
+				let mut m = model::Model::new();
+				let mut ok = true;
+				for &i in &plain {
+					let acc = m.deliver(u, &u.msgs[i]);
+					if !acc && !u.msgs[i].always_invalid {
+						if let uni::Facts::CU { scid, .. } = &u.msgs[i].facts {
+							ok &= m.snap.channels.contains_key(scid);
+						}
+						if let uni::Facts::NA { node, .. } = &u.msgs[i].facts {
+							ok &= m.snap.nodes.contains_key(node);
+						}
+					}
+				}
+				ok
+			};
+			if respects {
+				let d = declarative(u, &plain);
+				if d != out.final_snap {
+					fails.push(("final-graph-is-not-latest-valid-per-key".into(), format!("real {} | expected {}", out.final_snap.describe(u), d.describe(u))));
+				}
+			}
+		}
+		if let Some(c) = cmp {
+			let (o2, f2) = checked(w, era, c, &mut st, false);
+			fails.extend(f2);
+			if let Some(o2) = o2 {
+				if o2.final_n1 != out.final_n1 {
+					fails.push(("order-dependent-final-graph".into(), format!("{} vs {}", out.final_snap.describe(u), o2.final_snap.describe(u))));
+				}
+				if let (Ok(a), Ok(b)) = (real::read_graph(&out.final_n1), real::read_graph(&o2.final_n1)) {
+					if a != b {
+						fails.push(("order-dependent-final-graph-eq".into(), "NetworkGraph == says the final graphs differ".into()));
+					}
+				}
+			}
+		}
+	}
+	fails
+}
+
+/// Greedy step deletion while the same oracle keeps firing.
+fn shrink(w: &World, v: &RawViol) -> RawViol {
+	let mut best = v.clone();
+	if v.compare_with.is_some() {
+		return best;
+	}
+	loop {
+		let mut improved = false;
+		let mut k = 0;
+		while k < best.steps.len() {
+			let mut s = best.steps.clone();
+			s.remove(k);
+			let f = evaluate(w, best.era, &s, None);
+			if let Some((_, d)) = f.iter().find(|(o, _)| *o == best.oracle) {
+				best.steps = s;
+				best.detail = d.clone();
+				improved = true;
+			} else {
+				k += 1;
+			}
+		}
+		if !improved {
+			break;
+		}
+	}
+	best
+}
+
+fn self_check(u: &Universe) {
+	use uni::Facts;
+	for m in &u.msgs {
+		let all_sigs = match &m.facts {
+			Facts::CA { sigs_ok, .. } => sigs_ok.iter().all(|x| *x),
+			Facts::CU { verifies_under, .. } => !verifies_under.is_empty(),
+			Facts::NA { sig_ok, .. } => *sig_ok,
+		};
+		let expect_bad_sig = m.class.contains("badsig") || m.class.contains("swapped") || m.class.contains("tampered") || m.class == "invalid:na_signed_by_foreign_key";
+		if all_sigs == expect_bad_sig {
+			die(&format!("universe self-check: {} ({}) signature status is not what its class says", m.label, m.class));
+		}
+		if let Facts::CA { sigs_ok, .. } = &m.facts {
+			for (i, n) in ["n1", "n2", "b1", "b2"].iter().enumerate() {
+				if m.class == format!("invalid:ca_badsig_{}", n) {
+					let want: Vec<bool> = (0..4).map(|j| j != i).collect();
+					if sigs_ok.to_vec() != want {
+						die(&format!("universe self-check: {} should have exactly signature {} wrong", m.label, n));
+					}
+				}
+			}
+		}
+	}
+}
+
 fn main() {
-	let _args = mc_common::cli::parse();
-	mc_common::cli::die("engine not built yet");
+	let args = cli::parse();
+	if args.replay.is_none() && args.property != PROPERTY {
+		die(&format!("mc-gossip checks {} only", PROPERTY));
+	}
+	par::install_quiet_panic_hook();
+	let now = std::time::SystemTime::now().duration_since(std::time::UNIX_EPOCH).map(|d| d.as_secs()).unwrap_or(0);
+	if now <= WALL_LO || now + STALE + 86_400 >= WALL_HI {
+		die("the system clock is outside 2020..2065; the harness' separation of chosen times from the wall clock does not hold");
+	}
+	let us = [Universe::new(Era::Past), Universe::new(Era::Future)];
+	let rgs = [rgs_snapshots(&us[0]), rgs_snapshots(&us[1])];
+	for u in &us {
+		self_check(u);
+	}
+	let w = World { us, rgs };
+
+	if let Some(path) = &args.replay {
+		let text = std::fs::read_to_string(path).unwrap_or_else(|e| die(&format!("cannot read {}: {}", path.display(), e)));
+		let v: Value = mc_common::serde_json::from_str(&text).unwrap_or_else(|e| die(&format!("{} does not parse: {}", path.display(), e)));
+		let r = if v.get("replay").is_some() { &v["replay"] } else { &v };
+		let era = r.get("era").and_then(|e| e.as_str()).and_then(Era::parse).unwrap_or_else(|| die("replay: era missing"));
+		let u = w.u(era);
+		let parse = |a: &Value| -> Vec<Step> {
+			a.as_array().unwrap_or_else(|| die("replay: steps must be an array")).iter().map(|s| Step::from_json(u, s).unwrap_or_else(|| die(&format!("replay: bad step {}", s)))).collect()
+		};
+		let steps = parse(&r["steps"]);
+		let cmp = r.get("compare_with").filter(|c| c.is_array()).map(|c| parse(c));
+		println!("replaying era={} [{}]", era.name(), steps_string(u, &steps));
+		let mut st = Stats::default();
+		if let (Some(o), _) = checked(&w, era, &steps, &mut st, false) {
+			for (l, ok) in &o.trace {
+				println!("  {:<16} {}", l, if *ok { "accepted" } else { "rejected" });
+			}
+			println!("  final graph: {}", o.final_snap.describe(u));
+		}
+		let fails = evaluate(&w, era, &steps, cmp.as_deref());
+		if fails.is_empty() {
+			println!("REPLAY: no oracle fires");
+			std::process::exit(0);
+		}
+		for (o, d) in &fails {
+			println!("REPLAY: VIOLATION oracle={} {}", o, d);
+		}
+		std::process::exit(1);
+	}
+
+	let mut ev = Evidence::new(PROPERTY, args.tier, args.seed, Level::ModelChecking);
+	let cap_s = if args.wall_cap_s > 0 { args.wall_cap_s } else if args.tier.is_thorough() { 1800 } else { 50 };
+	let start = Instant::now();
+	let deadline = start + Duration::from_secs(cap_s);
+	let pl = plan(&w.us, args.tier);
+	let only = args.opt("family").map(|s| s.to_string());
+	let pools: Vec<Pool> = pl.pools.into_iter().filter(|p| only.as_ref().map(|o| p.family == o).unwrap_or(true)).collect();
+
+	// all admissible orders of every pool + the invariance reference of pools where order must not matter
+	let refs: Vec<PoolRef> = par::map(&pools, args.threads, |_, p| {
+		let u = w.u(p.era);
+		let exts = extensions(u, p);
+		let inv = if p.constrained && !has_timestamp_ties(u, &p.msgs) && !exts.is_empty() {
+			let steps: Vec<Step> = exts[0].iter().map(|i| Step::Msg(*i)).collect();
+			let mut st = Stats::default();
+			let o = execute(u, w.r(p.era), &steps, &mut st, false);
+			let g = real::read_graph(&o.final_n1).unwrap_or_else(|e| die(&format!("canonical encoding unreadable: {}", e)));
+			Some((o.final_n1, g, steps))
+		} else {
+			None
+		};
+		PoolRef { exts, inv }
+	})
+	.into_iter()
+	.map(|r| r.unwrap_or_else(|e| die(&format!("panic while preparing a pool: {}", e))))
+	.collect();
+
+	// jobs: (pool, range of orders); large pools first so the tail is short
+	let mut jobs: Vec<(usize, (usize, usize))> = Vec::new();
+	for (pi, pr) in refs.iter().enumerate() {
+		let p = &pools[pi];
+		let per_order = (if p.dup { 1 + p.msgs.len() * (p.msgs.len() + 1) / 2 } else { 1 }) * match p.max_ops {
+			0 => 1,
+			1 => 1 + p.ops.len() * (p.msgs.len() + 2),
+			_ => 1 + (p.ops.len() * (p.msgs.len() + 2)).pow(2) / 2,
+		};
+		let chunk = (2000 / per_order.max(1)).clamp(1, 64);
+		let mut a = 0;
+		while a < pr.exts.len() {
+			let b = (a + chunk).min(pr.exts.len());
+			jobs.push((pi, (a, b)));
+			a = b;
+		}
+	}
+	let capped = AtomicBool::new(false);
+	let results = par::map(&jobs, args.threads, |_, (pi, range)| run_job(&w, &pools[*pi], &refs[*pi], *range, deadline, &capped));
+
+	// ---- merge ---------------------------------------------------------------------------------
+	let mut stats = Stats::default();
+	let mut raw: Vec<RawViol> = Vec::new();
+	let mut finals: BTreeSet<u128> = BTreeSet::new();
+	let (mut inv_checked, mut decl_checked, mut skipped) = (0u64, 0u64, 0u64);
+	let mut fam_exec: BTreeMap<&'static str, u64> = BTreeMap::new();
+	let mut fam_sampled: BTreeSet<&'static str> = BTreeSet::new();
+	for (ji, r) in results.into_iter().enumerate() {
+		let r = match r {
+			Ok(r) => r,
+			Err(e) => die(&format!("harness panic in job {}: {}", ji, e)),
+		};
+		*fam_exec.entry(r.family).or_insert(0) += r.stats.executions;
+		stats.merge(r.stats);
+		raw.extend(r.viols);
+		finals.extend(r.finals);
+		inv_checked += r.invariance_checked;
+		decl_checked += r.declarative_checked;
+		skipped += r.skipped_orders;
+		if let Some(s) = r.sample {
+			if fam_sampled.insert(r.family) {
+				ev.sample(s, 40);
+			}
+		}
+	}
+	let is_capped = capped.load(Ordering::Relaxed);
+	let total_orders: u64 = refs.iter().map(|r| r.exts.len() as u64).sum();
+	let inv_pools = refs.iter().filter(|r| r.inv.is_some() && r.exts.len() > 1).count() as u64;
+
+	// ---- violations: per oracle the smallest few, shrunk -----------------------------------------
+	raw.sort_by(|a, b| (a.oracle.as_str(), a.steps.len(), a.era, &a.steps).cmp(&(b.oracle.as_str(), b.steps.len(), b.era, &b.steps)));
+	let mut violations: Vec<Violation> = Vec::new();
+	let mut per: BTreeMap<String, usize> = BTreeMap::new();
+	let mut ids: BTreeSet<String> = BTreeSet::new();
+	for v in &raw {
+		let c = per.entry(v.oracle.clone()).or_insert(0);
+		if *c >= 2 {
+			continue;
+		}
+		*c += 1;
+		let s = shrink(&w, v);
+		let u = w.u(s.era);
+		let identity = format!(
+			"{}|{}|{}{}",
+			s.oracle,
+			s.era.name(),
+			steps_string(u, &s.steps),
+			s.compare_with.as_ref().map(|c| format!("|vs|{}", steps_string(u, c))).unwrap_or_default()
+		);
+		if !ids.insert(identity.clone()) {
+			continue;
+		}
+		violations.push(Violation { property: PROPERTY.into(), oracle: s.oracle.clone(), identity, detail: s.detail.clone(), replay: replay_json(u, &s) });
+	}
+	let raw_oracles: BTreeMap<String, u64> = raw.iter().fold(BTreeMap::new(), |mut m, v| {
+		*m.entry(v.oracle.clone()).or_insert(0) += 1;
+		m
+	});
+
+	// ---- vacuity guards ----------------------------------------------------------------------------
+	if violations.is_empty() && !is_capped && only.is_none() {
+		let mut missing: Vec<String> = Vec::new();
+		let classes: BTreeSet<String> = w.us[0].msgs.iter().map(|m| m.class.clone()).collect();
+		for c in &classes {
+			let acc = stats.accepted.get(c).cloned().unwrap_or(0);
+			let rej = stats.rejected.get(c).cloned().unwrap_or(0);
+			if c.starts_with("invalid:") && rej == 0 {
+				missing.push(format!("{} never rejected", c));
+			}
+			if (c.starts_with("valid:") || c.starts_with("rel:")) && acc == 0 {
+				missing.push(format!("{} never accepted", c));
+			}
+			if c.starts_with("rel:") && rej == 0 {
+				missing.push(format!("{} never rejected", c));
+			}
+		}
+		for wname in [
+			"update_replaced_by_newer",
+			"node_announcement_replaced_by_newer",
+			"update_before_announcement_rejected",
+			"node_announcement_before_channel_rejected",
+			"htlc_max_equal_capacity_accepted",
+			"permanent_channel_failure_removed_channel",
+			"permanent_channel_failure_removed_node",
+			"permanent_node_failure_removed_node",
+			"permanent_node_failure_removed_channel",
+			"pruning_dropped_stale_direction_only",
+			"pruning_removed_channel",
+			"pruning_removed_node",
+			"pruning_removed_some_kept_some",
+			"pruning_kept_everything",
+			"announcement_rejected_while_tombstoned",
+			"channel_reannounced_after_removal",
+			"rgs_applied",
+			"rgs_rejected",
+			"rgs_added_channel",
+			"rgs_replaced_direction",
+			"rgs_left_direction_alone",
+		] {
+			if stats.witnesses.get(wname).cloned().unwrap_or(0) == 0 {
+				missing.push(format!("witness {} never observed", wname));
+			}
+		}
+		if inv_checked == 0 || inv_pools == 0 {
+			missing.push("no order-invariance comparison was made".into());
+		}
+		if finals.len() < 10 {
+			missing.push("fewer than 10 distinct final graphs".into());
+		}
+		if !missing.is_empty() {
+			die(&format!("vacuity guard: {}", missing.join("; ")));
+		}
+	}
+
+	// ---- evidence --------------------------------------------------------------------------------------
+	ev.set("states", stats.states.len() as u64);
+	ev.set("transitions", stats.transitions);
+	ev.set("traces_validated_against_impl", stats.executions);
+	ev.set("distinct_final_graphs", finals.len() as u64);
+	ev.set("pools", pools.len() as u64);
+	ev.set("admissible_orders_of_all_pools", total_orders);
+	ev.set("orders_skipped_by_cap", skipped);
+	ev.set("capped", is_capped);
+	ev.set("cap_s", cap_s);
+	ev.set("exhaustive", !is_capped);
+	ev.set("bounds", pl.bounds.clone());
+	ev.set("roundtrips_checked", stats.roundtrips);
+	ev.set("order_invariance_comparisons", inv_checked);
+	ev.set("pools_with_order_invariance", inv_pools);
+	ev.set("latest_valid_per_key_comparisons", decl_checked);
+	ev.set("executions_per_family", json!(fam_exec));
+	ev.set("accepted_per_class", json!(stats.accepted));
+	ev.set("rejected_per_class", json!(stats.rejected));
+	ev.set("witnesses", json!(stats.witnesses));
+	ev.set("raw_violations_per_oracle", json!(raw_oracles));
+	ev.set("threads", args.threads as u64);
+	ev.set(
+		"normalisation",
+		"cross-order comparisons use the NetworkGraph encoding with (a) map entries sorted by key (the maps are hash maps written in iteration order), (b) ChannelInfo TLV 1 announcement_received_time removed (wall clock), (c) each NodeInfo channel-id list sorted (a set kept in insertion order; `witnesses.info_node_channel_list_in_non_ascending_order` counts states where the raw list order was order-dependent). Round-trip comparisons use (a) only plus NetworkGraph's own ==.",
+	);
+	ev.assume("secp256k1 (signing and verification) and SHA-256 behave to spec; the reference verifies every signature by calling secp256k1 directly on hand-written BOLT 7 encodings that are cross-checked against LDK's encoders at start-up");
+	ev.assume("_test_utils build: update_channel_internal's wall-clock checks (channel_update older than two weeks / more than a day in the future) are compiled out (cfg not(feature = \"_test_utils\")), so update timestamps from 2001 and 2096 are accepted; production builds reject them before any other rule applies");
+	ev.assume("std build: announcement_received_time, and the removal time recorded by channel_failed_permanent / node_failed_permanent, come from SystemTime::now(); all chosen pruning instants lie more than two weeks outside 2020..2065 so no verdict depends on the clock reading (checked at start-up); the non-std / fuzzing variants (removal time filled in by the next pruning call) are not exercised");
+	ev.assume("UtxoLookup answers synchronously; asynchronous lookups (utxo::PendingChecks) are not exercised");
+	ev.assume("rapid-gossip-sync snapshots are wire format version 1 built by the harness; version 2 node details are not exercised; a snapshot re-adds a channel that was reported permanently failed (add_channel_from_partial_announcement does not consult the removal records) - modelled as such, not judged");
+	ev.assume("a channel announcement for a chain-verified outpoint with different node ids replaces the stored channel (documented reorg handling); such conflicting announcements are outside the enumerated pools");
+	let code = findings::conclude(PROPERTY, &violations, &mut ev);
+	eprintln!(
+		"C17 {}: {} pools, {} orders, {} executions, {} transitions, {} states, {} final graphs, {} invariance comparisons, {:.1}s{}",
+		args.tier.name(),
+		pools.len(),
+		total_orders,
+		stats.executions,
+		stats.transitions,
+		stats.states.len(),
+		finals.len(),
+		inv_checked,
+		start.elapsed().as_secs_f64(),
+		if is_capped { " CAPPED" } else { "" }
+	);
+	std::process::exit(code);
 }
